@@ -21,6 +21,11 @@ CHECKS = {
          "All DAGs up to 4 (quick) / 5 (thorough) commits with <=2 parents, under every permutation of distinct timestamps plus equal and pairwise-equal times, are stored as real commits; IsAncestorOf on all pairs, the history walk from every node and SeekCommonAncestor on every ordered 2..4-tuple are compared with reachability computed on bitmasks. The functions only look at graph shape and time order, so this small scope drives every branch.",
          "Trusted: 40 lines of bitmask reachability; the in-memory object store. Graphs beyond 5 nodes are not enumerated.",
          "DESIGN.md §4 C11"),
+ "C08": ("exploration",
+         "bounded-exhaustive enumeration of small commit DAGs x negotiation inputs against bitmask reachability, deviation-bounded secondary dimensions",
+         "All DAGs up to 4 (thorough 5) commits x ref tips x wants x haves x depth are enumerated completely and run through the real ClosedSetsFinder (one or two Process rounds); time order, unknown haves, have order, round split, done flag, a missing table and the iteration order of the want set (owned through a build-time overlay of the map range) are explored as bounded deviations from defaults. Closure, parent-first order, no unreachable commit, depth-limited tables, refusal of unreachable wants and a polynomial read count (ladders up to 20 diamonds) are checked on every case.",
+         "Trusted: bitmask reachability / BFS distance model; the in-memory object store and map-backed ref store (the finder only lists refs). Histories beyond 5 commits only as ladders.",
+         "DESIGN.md §4 C08"),
 }
 
 NOT_YET = {}
